@@ -343,7 +343,17 @@ def r03g(ctx):
     ctx.check(ok and ok2, "R03g", f"{q}.propagate", "the attenuation is evaluated on that grid and interpolated at the filter's frequencies on the same abscissa", "", key_detail="interpolation operands")
 
 
+def r03h(ctx):
+    """propagate() works on `signal.copy()` and filters / shifts that copy: `passive` (the input signal is left as it was) and `each frequency
+    component multiplied by the attenuation` once need the copy of a function-backed signal to share no component list with the input
+    (the attenuation filter is appended to the inner lists of `_filters` in place).  Decided by C04's R04c; reported here as well."""
+    from . import c04
+    from ._cross import relay
+    relay(ctx, "R03h", "the copy that propagate() filters shares no component list with the incoming signal (= R04c)", "C04", c04.r04c, "R04c", kind="N")
+
+
 def run(ctx):
+    ctx.guard(r03h)
     ctx.guard(r03g)
     ctx.guard(r03a)
     ctx.guard(r03b)
